@@ -234,7 +234,7 @@ pub fn alphabet_for(spec: SpecId, alpha: &[Mac]) -> Vec<Mac> {
 pub fn addr_name(a: Address) -> String {
     let names = [
         (SENDER, "SENDER"), (COINBASE, "COINBASE"), (A, "A"), (BOK, "BOK"), (BREV, "BREV"), (BHALT, "BHALT"), (BWRITE, "BWRITE"), (BSD, "BSD"),
-        (BLOG, "BLOG"), (BBURN, "BBURN"), (PROBE, "PROBE"), (BRET64, "BRET64"), (BNEST, "BNEST"), (BSDREV, "BSDREV"), (BSDSELF, "BSDSELF"), (BSDSELFREV, "BSDSELFREV"), (BW1, "BW1"), (RICH, "RICH"), (DUST, "DUST"), (STOR, "STOR"),
+        (BLOG, "BLOG"), (BBURN, "BBURN"), (PROBE, "PROBE"), (BRET64, "BRET64"), (BNEST, "BNEST"), (BSDREV, "BSDREV"), (BSDSELF, "BSDSELF"), (BSDSELFREV, "BSDSELFREV"), (BLOGREV, "BLOGREV"), (BW1, "BW1"), (RICH, "RICH"), (DUST, "DUST"), (STOR, "STOR"),
         (EMPTY, "EMPTY"), (AUTH, "AUTH"),
     ];
     names.iter().find(|(x, _)| *x == a).map(|(_, n)| n.to_string()).unwrap_or_else(|| format!("{a}"))
